@@ -135,11 +135,7 @@ impl ArrStorage {
 
     pub fn from_slice(bytes: &[u8]) -> Self {
         let mut s = Self::empty();
-        let mut i = 0;
-        while i < bytes.len() {
-            s.buf[i] = bytes[i];
-            i += 1;
-        }
+        s.buf[..bytes.len()].copy_from_slice(bytes);
         s.len = bytes.len();
         s
     }
@@ -195,10 +191,9 @@ impl StorageData for ArrStorage {
         }
         kani::assume(new_len as usize <= ARR_CAP);
         let new_len = new_len as usize;
-        let mut i = self.len;
-        while i < new_len {
-            self.buf[i] = 0;
-            i += 1;
+        // invariant: bytes at offsets >= len are zero (so growth needs no fill)
+        if new_len < self.len {
+            self.buf[new_len..self.len].fill(0);
         }
         self.len = new_len;
         Ok(())
@@ -216,16 +211,8 @@ impl StorageData for ArrStorage {
             self.bad_write = true;
         }
         kani::assume(end <= ARR_CAP);
-        let mut i = self.len;
-        while i < pos {
-            self.buf[i] = 0;
-            i += 1;
-        }
-        let mut i = 0;
-        while i < bytes.len() {
-            self.buf[pos + i] = bytes[i];
-            i += 1;
-        }
+        // the gap [len, pos) is already zero by the invariant
+        self.buf[pos..end].copy_from_slice(bytes);
         if end > self.len {
             self.len = end;
         }
@@ -372,13 +359,10 @@ impl<D: StorageData, const C: usize> MapData<u64, u64, D> for ArrMap<C> {
     }
     fn resize(&mut self, _s: &mut Storage<D>, c: u64) -> Result<(), DbError> {
         kani::assume(c as usize <= C);
-        let mut i = c as usize;
-        while i < C {
-            self.states[i] = 0;
-            self.keys[i] = 0;
-            self.values[i] = 0;
-            i += 1;
-        }
+        let c0 = c as usize;
+        self.states[c0..].fill(0);
+        self.keys[c0..].fill(0);
+        self.values[c0..].fill(0);
         self.cap = c;
         Ok(())
     }
